@@ -1,7 +1,8 @@
 (* Histories of client operations (context-manager enter/exit, calls, configuration changes) and their
    decoding from the flat case format of the correspondence driver. *)
 From Coq Require Import ZArith List Bool String.
-From UDS Require Import Lib.Bytes Lib.ErrM Lib.PyOps Model.Message Model.Client Model.Services.
+From UDS Require Import Lib.Bytes Lib.ErrM Lib.PyOps Model.Message Model.Client Model.Services Model.Helpers
+  Model.MemLoc Model.Svc_Simple Model.Svc_Memory Model.Svc_Did Model.Svc_File Model.Svc_Dtc.
 Import ListNotations.
 Open Scope Z_scope.
 Open Scope list_scope.
@@ -13,7 +14,28 @@ Inductive call :=
   | CSendKey (level : Z) (key : bytes)
   | CUnlock (level : Z) (params : bytes)
   | CTesterPresent
-  | CEcuReset (t : Z).
+  | CEcuReset (t : Z)
+  | CClearDtc (group : Z) (memsel : option Z)
+  | CRoutine (rid ct : Z) (data : option bytes)
+  | CAccessTiming (at_ : Z) (rec : option bytes)
+  | CCommControl (ct : Z) (a : ctarg) (node : option Z)
+  | CTransferData (seq : Z) (data : option bytes)
+  | CTransferExit (data : option bytes)
+  | CLinkControl (ct : Z) (b : option (Z * Z))        (* Baudrate(rate, type) built by the caller *)
+  | CControlDtc (stype : Z) (data : option bytes)
+  | CReadMem (addr size : Z) (af sf : option Z)
+  | CWriteMem (addr size : Z) (af sf : option Z) (data : bytes)
+  | CUpDown (upload : bool) (addr size : Z) (af sf : option Z) (d : option (Z * Z))
+  | CDefineDid (did : Z) (d : diddef)
+  | CClearDid (did : option Z)
+  | CReadDids (l : list Z)
+  | CReadDidFirst (l : list Z)
+  | CTestDid (l : list Z)
+  | CWriteDid (did : Z) (v : bytes)
+  | CIoControl (did : Z) (cp : option Z) (values : option bytes) (masks : maskarg)
+  | CFileTransfer (moop : Z) (path : list Z) (d : option (Z * Z)) (f : fsarg)
+  | CAuth (task : Z) (a : authargs)
+  | CReadDtc (sub : Z) (a : dtcargs).
 
 Definition run_inner (cfg : config) (st : cstate) (c : call) (now : Z) (s : sched) : fres :=
   match c with
@@ -24,6 +46,28 @@ Definition run_inner (cfg : config) (st : cstate) (c : call) (now : Z) (s : sche
   | CUnlock l p => unlock_security_access cfg st l p now s
   | CTesterPresent => tester_present cfg st now s
   | CEcuReset t => ecu_reset cfg st t now s
+  | CClearDtc g m => clear_dtc cfg st g m now s
+  | CRoutine rid ct d => routine_control cfg st rid ct d now s
+  | CAccessTiming at_ rec => access_timing_parameter cfg st at_ rec now s
+  | CCommControl ct a node => communication_control cfg st ct a node now s
+  | CTransferData seq d => transfer_data cfg st seq d now s
+  | CTransferExit d => request_transfer_exit cfg st d now s
+  | CLinkControl ct b =>
+    link_control cfg st ct (match b with Some (r, t) => (x <- mk_baud r t ;; ret (Some x)) | None => ret None end) now s
+  | CControlDtc t d => control_dtc_setting cfg st t d now s
+  | CReadMem a sz af sf => read_memory_by_address cfg st a sz af sf now s
+  | CWriteMem a sz af sf d => write_memory_by_address cfg st a sz af sf d now s
+  | CUpDown up a sz af sf d => request_upload_download cfg st up a sz af sf d now s
+  | CDefineDid did d => dynamically_define_did cfg st did d now s
+  | CClearDid did => do_clear_dynamically_defined_did cfg st did now s
+  | CReadDids l => read_data_by_identifier cfg st l now s
+  | CReadDidFirst l => read_data_by_identifier_first cfg st l now s
+  | CTestDid l => test_data_identifier cfg st l now s
+  | CWriteDid did v => write_data_by_identifier cfg st did v now s
+  | CIoControl did cp v m => io_control cfg st did cp v m now s
+  | CFileTransfer moop path d f => request_file_transfer cfg st moop path d f now s
+  | CAuth task a => authentication cfg st task a now s
+  | CReadDtc sub a => read_dtc_information cfg st sub a now s
   end.
 
 (* a decorated client method as the user calls it (send_request itself is not decorated) *)
@@ -47,14 +91,27 @@ Inductive op :=
 Definition oz (v : Z) : option Z := if v <? 0 then None else Some v.
 Definition zb (v : Z) : bool := v =? 1.
 
+(* configuration vector: 17 base slots, then [nd; (did, shape)*nd], then [nio; (did, shape, has_mask, mask_size_or_-1, nmask, masks...)*nio] *)
+Fixpoint decode_dids (n : nat) (a : list Z) : list (Z * Z) :=
+  match n, a with
+  | S k, did :: sh :: tl => (did, sh) :: decode_dids k tl
+  | _, _ => []
+  end.
+Fixpoint decode_ios (n : nat) (a : list Z) : list (Z * (Z * bool * list Z * option Z)) :=
+  match n, a with
+  | S k, did :: sh :: hm :: ms :: nm :: tl =>
+    (did, (sh, hm =? 1, firstn (Z.to_nat nm) tl, if ms <? 0 then None else Some ms)) :: decode_ios k (skipn (Z.to_nat nm) tl)
+  | _, _ => []
+  end.
 Definition cfg_of (a : list Z) : config :=
   let g i := nth i a 0 in
   {| ex_neg := zb (g 0%nat); ex_inv := zb (g 1%nat); ex_unx := zb (g 2%nat);
      tol_pad := zb (g 3%nat); ign_zero := zb (g 4%nat); use_srv := zb (g 5%nat);
      std := g 6%nat; req_to := oz (g 7%nat); p2 := g 8%nat; p2s := g 9%nat; has_cb := zb (g 10%nat);
      srv_addr := oz (g 11%nat); srv_size := oz (g 12%nat); snap_did := g 13%nat; ext_size := oz (g 14%nat);
-     algo := g 15%nat; algo_prm := g 16%nat |}.
-Definition CFG_LEN : nat := 17.
+     algo := g 15%nat; algo_prm := g 16%nat;
+     dids := decode_dids (Z.to_nat (g 17%nat)) (skipn 18 a);
+     ios := decode_ios (Z.to_nat (nth (18 + 2 * Z.to_nat (g 17%nat)) a 0)) (skipn (19 + 2 * Z.to_nat (g 17%nat)) a) |}.
 
 Fixpoint set_nth (l : list Z) (i : nat) (v : Z) : list Z :=
   match l, i with
@@ -66,7 +123,11 @@ Fixpoint set_nth (l : list Z) (i : nat) (v : Z) : list Z :=
 Definition enc_sdata_resp (o : option iresp) : list Z :=
   match o with
   | None => [0]
-  | Some (r, sd) => 1 :: enc_resp_obs r ++ enc_bytes sd
+  | Some (r, sd) =>
+    match sd with
+    | m :: v => if m =? VALUE_MARK then 2 :: v else 1 :: enc_resp_obs r ++ enc_bytes sd
+    | [] => 1 :: enc_resp_obs r ++ enc_bytes sd
+    end
   end.
 
 (* one operation: (observable output, configuration vector, client state, clock) *)
@@ -105,6 +166,19 @@ Fixpoint state_after (cfgv : list Z) (st : cstate) (now : Z) (ops : list op) : c
    op: 0 w | 1 | 2 kind (blobs: pre post) | 3 | 4 callid nargs args.. ncallblobs nframes (delta kind)* | 5 slot v | 6 dt *)
 Definition take_blobs (n : nat) (b : list bytes) : list bytes * list bytes := (firstn n b, skipn n b).
 
+Definition oi (a : list Z) (i : nat) : option Z := if nth i a 0 =? 1 then Some (nth (S i) a 0) else None.
+Definition ob (a : list Z) (i : nat) (b : list bytes) (j : nat) : option bytes := if nth i a 0 =? 1 then Some (nth j b []) else None.
+Fixpoint triples (n : nat) (a : list Z) : list (Z * Z * Z) :=
+  match n, a with S k, x :: y :: z :: tl => (x, y, z) :: triples k tl | _, _ => [] end.
+Fixpoint memlocs (n : nat) (a : list Z) : list (Z * Z * option Z * option Z) :=
+  match n, a with
+  | S k, x :: y :: ha :: af :: hs :: sf :: tl =>
+    (x, y, (if ha =? 1 then Some af else None), (if hs =? 1 then Some sf else None)) :: memlocs k tl
+  | _, _ => []
+  end.
+Fixpoint pairs_zb (n : nat) (a : list Z) : list (Z * bool) :=
+  match n, a with S k, x :: y :: tl => (x, y =? 1) :: pairs_zb k tl | _, _ => [] end.
+
 Definition decode_call (id : Z) (a : list Z) (b : list bytes) : call :=
   let g i := nth i a 0 in
   let h i := nth i b [] in
@@ -114,7 +188,43 @@ Definition decode_call (id : Z) (a : list Z) (b : list bytes) : call :=
   else if id =? 4 then CSendKey (g 0%nat) (h 0%nat)
   else if id =? 5 then CUnlock (g 0%nat) (h 0%nat)
   else if id =? 6 then CTesterPresent
-  else CEcuReset (g 0%nat).
+  else if id =? 7 then CEcuReset (g 0%nat)
+  else if id =? 8 then CClearDtc (g 0%nat) (oi a 1)
+  else if id =? 9 then CRoutine (g 0%nat) (g 1%nat) (ob a 2 b 0)
+  else if id =? 10 then CAccessTiming (g 0%nat) (ob a 1 b 0)
+  else if id =? 11 then
+    CCommControl (g 0%nat) (if g 1%nat =? 0 then CtObj (g 2%nat) (zb (g 3%nat)) (zb (g 4%nat)) else CtInt (g 2%nat)) (oi a 5)
+  else if id =? 13 then CTransferData (g 0%nat) (ob a 1 b 0)
+  else if id =? 14 then CTransferExit (ob a 0 b 0)
+  else if id =? 15 then CLinkControl (g 0%nat) (if g 1%nat =? 1 then Some (g 2%nat, g 3%nat) else None)
+  else if id =? 16 then CControlDtc (g 0%nat) (ob a 1 b 0)
+  else if id =? 17 then CReadMem (g 0%nat) (g 1%nat) (oi a 2) (oi a 4)
+  else if id =? 18 then CWriteMem (g 0%nat) (g 1%nat) (oi a 2) (oi a 4) (h 0%nat)
+  else if id =? 19 then CUpDown (zb (g 0%nat)) (g 1%nat) (g 2%nat) (oi a 3) (oi a 5)
+                                (if g 7%nat =? 1 then Some (g 8%nat, g 9%nat) else None)
+  else if id =? 20 then
+    CDefineDid (g 0%nat) (if g 1%nat =? 1 then DefByDid (triples (Z.to_nat (g 2%nat)) (skipn 3 a))
+                          else DefByMem (memlocs (Z.to_nat (g 2%nat)) (skipn 3 a)))
+  else if id =? 21 then CClearDid (oi a 0)
+  else if id =? 22 then CReadDids (firstn (Z.to_nat (g 0%nat)) (skipn 1 a))
+  else if id =? 23 then CReadDidFirst (firstn (Z.to_nat (g 0%nat)) (skipn 1 a))
+  else if id =? 24 then CTestDid (firstn (Z.to_nat (g 0%nat)) (skipn 1 a))
+  else if id =? 25 then CWriteDid (g 0%nat) (h 0%nat)
+  else if id =? 26 then
+    CIoControl (g 0%nat) (oi a 1) (ob a 3 b 0)
+               (if g 4%nat =? 0 then MNone else if g 4%nat =? 1 then MBool (zb (g 5%nat))
+                else MList (pairs_zb (Z.to_nat (g 5%nat)) (skipn 6 a)))
+  else if id =? 27 then
+    CFileTransfer (g 0%nat) (h 0%nat) (if g 1%nat =? 1 then Some (g 2%nat, g 3%nat) else None)
+                  (if g 4%nat =? 0 then FsNone else if g 4%nat =? 1 then FsInt (g 5%nat) else FsObj (oi a 6) (oi a 8) (oi a 10))
+  else if id =? 28 then
+    CAuth (g 0%nat) {| au_cfg := oi a 1; au_evalid := oi a 3; au_cert := ob a 5 b 0; au_chal := ob a 6 b 1;
+                       au_algo := ob a 7 b 2; au_certdata := ob a 8 b 3; au_pown := ob a 9 b 4; au_eph := ob a 10 b 5;
+                       au_add := ob a 11 b 6 |}
+  else
+    CReadDtc (g 0%nat) {| da_status := oi a 1; da_severity := oi a 3; da_sev_obj := zb (g 5%nat); da_class := oi a 6;
+                          da_dtc := oi a 8; da_snap := oi a 10; da_ext := oi a 12; da_memsel := oi a 14;
+                          da_fgid := oi a 16; da_ext_size := oi a 18 |}.
 
 Fixpoint decode_replies (n : nat) (a : list Z) (b : list bytes) : list (Z * item) * list Z * list bytes :=
   match n with
@@ -157,9 +267,11 @@ Fixpoint decode_ops (n : nat) (a : list Z) (b : list bytes) : list op :=
     end
   end.
 
-Definition entry_history (a : list Z) (b : list bytes) : list Z :=
-  let cfgv := firstn CFG_LEN a in
-  match skipn CFG_LEN a with
+Definition entry_history (a0 : list Z) (b : list bytes) : list Z :=
+  let L := Z.to_nat (hd 0 a0) in
+  let a := tl a0 in
+  let cfgv := firstn L a in
+  match skipn L a with
   | nops :: rest => run_history cfgv st_init 0 (decode_ops (Z.to_nat nops) rest b)
   | [] => [-998]
   end.
